@@ -39,6 +39,7 @@ import DracoProofs.EbTraceS
       `3j ↦ Prev a`, `3j+1 ↦ Next a`, `3j+2 ↦ Prev b`, by `TblOK.hedge` at the two glued edges), then `fine_mergeV`;
    3. `lm`: case analysis in the header comment of `lm_cases` below; needs `vN ≠ vP`, `vP ≠ vB` and `a ≠ b`;
       `vP ≠ vB`: from `fine` and the non-degeneracy of face `j`;
+      (UPDATE: the clause is now part of `SAt`, and `vN ≠ vP` is PROVED from it in DracoProofs/EbTraceS3.lean, `vN_ne_vP`.)
       `vN ≠ vP` is the ONE genuinely new fact: the two copies of the tip vertex are different decoder vertices.  It does
       not follow from `SAt`: it needs "the fan of `Vertex(P[j])` is not closed by the faces decoded so far and face `j`"
       (otherwise the encoder would not have visited the vertex before — it would have emitted `C`), to be ADDED to `SAt` as
@@ -197,7 +198,7 @@ theorem stk_sorted (syms : List Nat) (evs : List TopoSplit) :
 theorem cornerB_of_stk {t : CT} {P : Array Nat} {syms : List Nat} {evs : List TopoSplit} {j : Nat} {s : DSS}
     (hS : StkInv syms evs j s) (hA : SAt t P syms evs j) :
     s.stack.back! = 3 * (j - 1) ∧ 3 * (j - 1) < 3 * j ∧ phi P (3 * (j - 1)) = t.opp[Eb.nextC P[j]!]! := by
-  obtain ⟨h0, hr, -, -⟩ := hA
+  obtain ⟨h0, hr, -, -, -⟩ := hA
   refine ⟨(hS.top h0).2, by omega, ?_⟩
   rw [phi_0, hr]
 
@@ -207,7 +208,7 @@ theorem cornerA_of_stk_noev {t : CT} {P : Array Nat} {syms : List Nat} {evs : Li
     (hev : hasEv syms.length evs j = false) :
     ∃ e, (if s.splitActive[j]! ≠ inv then s.stack.pop.push s.splitActive[j]! else s.stack.pop).back! = 3 * e ∧
       3 * e < 3 * j ∧ 3 * e ≠ 3 * (j - 1) ∧ phi P (3 * e) = t.opp[Eb.prevC P[j]!]! := by
-  obtain ⟨h0, -, hn, -⟩ := hA
+  obtain ⟨h0, -, -, hn, -⟩ := hA
   obtain ⟨hlen, hl⟩ := hn hev
   have hsa : s.splitActive[j]! = inv := by
     apply hS.sa0 j hj
